@@ -1,11 +1,11 @@
 package props
 
 import (
-	"os"
 	"fmt"
 	"go/constant"
 	"go/token"
 	"go/types"
+	"os"
 	"reflect"
 	"regexp"
 	"sort"
